@@ -7,11 +7,14 @@ MODEL = {
     'lec_lower_quotas': ('list', 'int'), 'lec_targets': ('list', 'int'), 'lec_upper_quotas': ('list', 'int'),
     'proj_lecturers': ('list', 'int'),
     'pairs': REFS2, 'project_lists': REFS2, 'lecturer_lists': REFS2, 'rank_lists': REFS2,
+    'time_start': 'real', 'time_after_model_creation': 'real', 'time_after_solve': 'real',     # datetimes as seconds (T12)
     'info_string': ('str', 'info'), 'pulp_status': ('str', 'status'),
     'OPTIMAL_PULP_STATUS': ('const_str', 'Optimal'), 'NOTSOLVED_PULP_STATUS': ('const_str', 'Not Solved'),
 }
 CLASSES = {
     'Model': MODEL,
     'Brute_force_solver': {'model': ('obj', 'Model'),
+                           'optimal_generousmaxprofile': ('absent', ('list', 'int')), 'optimal_greedymaxprofile': ('absent', ('list', 'int')),
+                           'optimal_greedyprofile': ('absent', ('list', 'int')),
                            'instance_options': ('dict', 'Instance_options', {'NUMAGENTS': 'int', 'TWOPL': 'bool', 'PC': 'bool'})},
 }
